@@ -158,3 +158,193 @@ def parse_model(line, npts):
         q = rest[5 * i:5 * i + 5]
         pts.append((int(q[0]), [u(w) for w in q[1:]]))
     return dict(pattern=pat, Vregs=V, crossing=cross, star=(rx1, ux1, rx2, ux2), window=(lo, hi), points=pts)
+
+
+# ======================================================================================
+# case generators: all four patterns, velocity differences, ideal gas and JWL
+# ======================================================================================
+
+def sounds(c):
+    """al, ar as the solver's own constructor computes them"""
+    from exactpack.solvers.riemann import riemann as RM
+    with hush():
+        s = RM.SetupRiemannProblem(**{k: c[k] for k in c if k in STATE + JWLC + ('problem',)})
+    return float(s.al), float(s.ar)
+
+
+def gen_case(rng, eos, want, sizes=((151, 201, 301), (101, 201, 301))):
+    """admissible data that gives the wanted pattern with a margin (hit rate measured on the unchanged tree:
+    800/800), with a velocity difference and a moving frame; `eos` is 'ig' (unequal gammas) or 'jwl'
+    (the Shyue / Lee material constants of the test-suite, states perturbed around theirs)"""
+    if eos == 'ig':
+        c = dict(gl=rng.uniform(1.2, 2.5), gr=rng.uniform(1.2, 2.5))
+        c.update(pl=lu(rng, .3, 3.), rl=lu(rng, .3, 3.), rr=lu(rng, .3, 3.))
+        ratio = {'RCS': 1. / rng.uniform(2., 8.), 'SCR': rng.uniform(2., 8.)}.get(want, rng.uniform(.7, 1.4))
+        scale_x, xd0 = 1., rng.uniform(-1., 1.)
+    else:
+        base = dict(rng.choice([SHYUE, LEE]))
+        c = {k: base[k] for k in JWLC + ('problem', 'e0', 'gl', 'gr')}
+        lee = base['A'] > 100
+        if want in ('SCS', 'RCR'):
+            # both sides near the LEFT state of the set (Lee's dense right state, compressed far beyond r0, is so
+            # stiff that a small expansion leaves the solver's tables)
+            pl = base['pl'] * rng.uniform(.8, 1.25)
+            rl = base['rl'] * rng.uniform(.9, 1.1)
+            rr = rl * rng.uniform(.7, 1.4)
+            ratio = rng.uniform(.85, 1.18)
+        else:
+            native = 'SCR' if lee else 'RCS'         # the set's own orientation, or its mirror image
+            a, b = ('l', 'r') if want == native else ('r', 'l')
+            pl = base['p' + a] * rng.uniform(.8, 1.25)
+            rl = base['r' + a] * rng.uniform(.9, 1.1)
+            rr = base['r' + b] * rng.uniform(.9, 1.1)
+            ratio = base['p' + b] / base['p' + a] * rng.uniform(.8, 1.25)
+        c.update(pl=pl, rl=rl, rr=rr)
+        scale_x, xd0 = 50., rng.uniform(30., 70.)
+    c['pr'] = c['pl'] * ratio
+    c['ul'] = c['ur'] = 0.
+    al, ar = sounds(c)
+    c['ul'] = rng.uniform(-.5, .5) * al
+    if eos == 'ig':
+        f = {'SCS': -rng.uniform(.5, .9), 'RCR': rng.uniform(.5, .9)}.get(want, rng.choice([-1, 1]) * rng.uniform(.03, .15))
+    else:
+        f = {'SCS': -rng.uniform(.2, .35), 'RCR': rng.uniform(.2, .35)}.get(want, rng.choice([-1, 1]) * rng.uniform(.005, .03))
+    c['ur'] = c['ul'] + f * (al + ar)
+    vmax = abs(c['ul']) + abs(c['ur']) + 2. * (al + ar)
+    c.update(xmin=xd0 - scale_x, xd0=xd0, xmax=xd0 + scale_x, t=rng.uniform(.2, .9) * scale_x / vmax,
+             num_int_pts=rng.choice(sizes[0]), num_x_pts=rng.choice(sizes[1]))
+    c['tag'] = eos + ':' + want
+    return c
+
+
+def expected_region(pat, X, grid, g):
+    """index of the last `reg_state_geos` call whose left edge lies strictly left of the grid node g"""
+    def prev(Xi):
+        k = int(np.argmin(abs(grid - Xi)))
+        return grid[k - 1]
+    xl = {'RCS': [X[0], X[1], X[2], prev(X[3])] if len(X) == 4 else [],
+          'SCR': [X[0], X[1], X[2], prev(X[3])] if len(X) == 4 else [],
+          'RCR': [X[0], X[1], X[2], X[3], prev(X[4])] if len(X) == 5 else [],
+          'SCS': [X[0], X[1], prev(X[2])] if len(X) == 3 else []}[pat]
+    idx = 0
+    for i, a in enumerate(xl):
+        if a < g:
+            idx = i + 1
+    return idx
+
+
+# ======================================================================================
+# the tie
+# ======================================================================================
+
+TOL_TIE = 1e-9       # all atoms captured: rounding only (worst on the unchanged tree 3e-15, JWL: numpy's exp vs libm's)
+TOL_CROSS = 1e-9     # |u_left(px) - u_right(px)| / (al + ar): bisect's xtol = 2e-12 on px (worst observed 5e-12)
+
+
+def tie_cases(rng, deep):
+    plan = [(e, w) for e in ('ig', 'jwl') for w in PATTERNS]
+    if deep:
+        plan = plan * 10
+    return [gen_case(rng, e, w) for e, w in plan]
+
+
+def tie_geneos(rng, deep, cases=None):
+    """hand model `RiemannGen` (Float) vs the real `GenEOS_Solver`: one public call per case (quick: 8)"""
+    res = dict(evaluations=0, distinct_nontrivial=0, mismatches=[], samples=[], solves=0,
+               coverage=dict(pattern_x_sign={}, region={}, outcome={}), worst=dict(fields=0.0, Vregs=0.0, crossing=0.0))
+    cov = res['coverage']
+    lines, todo = [], []
+    for c in (cases if cases is not None else tie_cases(rng, deep)):
+        al, ar = sounds(c)
+        w = (abs(c['ul']) + abs(c['ur']) + 2.5 * (al + ar)) * c['t']
+        user = [c['xd0'] + rng.uniform(-1., 1.) * w for _ in range(8)] + [c['xd0'], c['xmin'], c['xmax']]
+        cap = solve(c, user)
+        res['solves'] += 1
+        if cap.error:
+            cov['outcome'][cap.error] = cov['outcome'].get(cap.error, 0) + 1
+            continue
+        cov['outcome']['ok'] = cov['outcome'].get('ok', 0) + 1
+        sg = (c['ur'] > c['ul']) - (c['ur'] < c['ul'])
+        key = '%s:%s:%+d' % (c['tag'].split(':')[0], cap.pattern, sg)
+        cov['pattern_x_sign'][key] = cov['pattern_x_sign'].get(key, 0) + 1
+        X = [c['xd0'] + c['t'] * v for v in cap.Vregs]
+        # the real values at the user points (public call), at grid nodes around every wave (the driver's
+        # arrays) and inside the cells next to every wave (np.interp of the driver's arrays, as the wrapper does)
+        pts = [(x, [float(cap.fields[f][i]) for f in FIELDS], 'user') for i, x in enumerate(user)]
+        extra = []
+        for Xi in X:
+            k = int(np.argmin(abs(cap.x - Xi)))
+            for j in (k - 2, k - 1, k, k + 1, k + 2):
+                if 0 <= j < len(cap.x):
+                    pts.append((float(cap.x[j]), [float(cap.grid[q][j]) for q in 'prue'], 'node'))
+            if 1 <= k < len(cap.x) - 1:
+                extra += [0.5 * (cap.x[k - 1] + cap.x[k]), 0.3 * cap.x[k] + 0.7 * cap.x[k + 1]]
+        for x in extra:
+            pts.append((float(x), [float(np.interp(x, cap.x, cap.grid[q])) for q in 'prue'], 'cell'))
+        line = model_line(c, cap, [p[0] for p in pts])
+        if line is None:
+            cov['outcome']['short-table'] = cov['outcome'].get('short-table', 0) + 1
+            continue
+        lines.append(line)
+        todo.append((c, cap, X, pts, al + ar))
+    outs = lean_io.run_lines(lines) if lines else []
+    for (c, cap, X, pts, asum), out in zip(todo, outs):
+        cc = {k: v for k, v in c.items()}
+        try:
+            m = parse_model(out, len(pts))
+        except Exception:
+            res['mismatches'].append(dict(case=cc, why='model output unreadable: %s' % out[:200]))
+            continue
+        bad = None
+        if m['pattern'] != cap.pattern:
+            bad = 'pattern: code %s model %s' % (cap.pattern, m['pattern'])
+        elif len(m['Vregs']) != len(cap.Vregs):
+            bad = 'Vregs: code %r model %r' % (cap.Vregs, m['Vregs'])
+        else:
+            sc = max(abs(v) for v in cap.Vregs) + asum
+            wv = max(abs(a - b) / sc for a, b in zip(cap.Vregs, m['Vregs']))
+            res['worst']['Vregs'] = max(res['worst']['Vregs'], wv)
+            res['worst']['crossing'] = max(res['worst']['crossing'], abs(m['crossing']) / asum)
+            if wv > TOL_TIE:
+                bad = 'Vregs: code %r model %r' % (cap.Vregs, m['Vregs'])
+            elif abs(m['crossing']) > TOL_CROSS * asum:
+                bad = 'px = %r is not a crossing of the two interpolated P-U curves: residual %r' % (cap.px[0], m['crossing'])
+            else:
+                # the driver's grid is sort(linspace(window) ++ Xregs ++ [0]): drop the one appended 0
+                g0 = list(cap.x)
+                g0.remove(0.0)
+                if rel(m['window'][0], float(min(g0))) > TOL_TIE or rel(m['window'][1], float(max(g0))) > TOL_TIE:
+                    bad = 'window: code [%r, %r] model %r' % (float(min(g0)), float(max(g0)), m['window'])
+        if bad:
+            res['mismatches'].append(dict(case=cc, why=bad))
+            continue
+        for (x, real, kind), (reg, mv) in zip(pts, m['points']):
+            res['evaluations'] += 1
+            g = float(cap.x[max(int(np.searchsorted(cap.x, x, side='right')) - 1, 0)])
+            want_reg = expected_region(cap.pattern, X, cap.x, g)
+            cov['region']['%s:%d' % (cap.pattern, reg)] = cov['region'].get('%s:%d' % (cap.pattern, reg), 0) + 1
+            a = math.sqrt(abs(real[0] / real[1])) if real[1] else 1.0
+            sc = [abs(real[0]), abs(real[1]), max(abs(real[2]), a), max(abs(real[3]), a * a)]
+            err = max(abs(p - q) / max(s, 1e-300) for p, q, s in zip(real, mv, sc))
+            res['worst']['fields'] = max(res['worst']['fields'], err)
+            if reg != want_reg:
+                bad = 'region at x=%r (%s): code %d model %d' % (x, kind, want_reg, reg)
+            elif not err <= TOL_TIE:
+                bad = '(p, rho, u, e) at x=%r (%s point): code %r model %r' % (x, kind, real, mv)
+            if bad:
+                res['mismatches'].append(dict(case=cc, x=x, why=bad))
+                break
+            res['distinct_nontrivial'] += 1
+        if len(res['samples']) < 2:
+            res['samples'].append(dict(model='RiemannGen', case=cc, px=cap.px[0], pattern=cap.pattern,
+                                       outcome=' '.join(out.split()[:2])))
+    got = set(k.split(':')[1] for k in cov['pattern_x_sign'])
+    cov['missing'] = [p for p in PATTERNS if p not in got]
+    if deep:
+        for p in ('SCR', 'RCS'):
+            for s in ('+1', '-1'):
+                if not any(k.endswith(':%s:%s' % (p, s)) for k in cov['pattern_x_sign']):
+                    cov['missing'].append(p + ':' + s)
+    if cov['missing'] and not res['mismatches']:
+        res['mismatches'].append(dict(why='generator no longer covers the patterns %r' % cov['missing']))
+    return res
